@@ -55,6 +55,9 @@ public:
 extern "C" {
 //@slice src/option.cpp fn read_number key=read_number_signed
 //@slice src/option.cpp fn read_number key=read_number_unsigned
+#ifdef VERSION_PART
+//@slice src/option.cpp fn read_version_part
+#endif
 }
 //@slice src/option.cpp fn Option<bool>::read key=bool_read
 extern "C" {
@@ -72,5 +75,8 @@ void h_validate_signed() { Option_signed *o; bool r = w_validate_signed(o, nonde
 void h_validate_unsigned() { Option_unsigned *o; bool r = w_validate_unsigned(o, nondet_long()); if (r) { CANARY("validate accepts"); } else { CANARY("validate rejects"); } }
 void h_read_number_signed() { const char *in; Option_signed *o; bool r = read_number_signed(in, *o); if (r && !g_is_ref) { CANARY("read_number: numeral accepted"); } if (r && g_is_ref) { CANARY("read_number: reference accepted"); } if (!r) { CANARY("read_number: rejected"); } }
 void h_read_number_unsigned() { const char *in; Option_unsigned *o; bool r = read_number_unsigned(in, *o); if (r && !g_is_ref) { CANARY("read_number: numeral accepted"); } if (r && g_is_ref) { CANARY("read_number: reference accepted"); } if (!r) { CANARY("read_number: rejected"); } }
+#ifdef VERSION_PART
+void h_read_version_part() { const char *in; int *out; bool r = read_version_part(in, *out); if (r) { CANARY("version part accepted"); } else { CANARY("version part rejected"); } }
+#endif
 void h_bool_read() { const char *in; Option_bool *o; bool r = w_bool_read(o, in); if (r) { CANARY("bool read accepted"); } else { CANARY("bool read rejected"); } }
 }
